@@ -314,7 +314,9 @@ def run_shard(ctx):
             # "modified since recorded" in the sense the clean-up can see: the set of files or one of their mtimes changed
             # (judged on the view the clean-up will actually see: a stray file removed for the second attempt no longer counts)
             edited = start != "empty" and os.path.isdir(ws) and recorded_view != {} and pre_view != recorded_view and mtimes_of(ws) != recorded_view
-            if state is not None and not lost and not outcome.startswith("returned") and edited and not dangling and not agreed and rng.random() < 0.8:
+            # (a CheckoutError is not a refusal: the checkout went through and could not create some entry; it records the path as the
+            # link it now is, and the clean-up may then take that record at its word)
+            if state is not None and not lost and not outcome.startswith("returned") and outcome != "CheckoutError" and edited and not dangling and not agreed and rng.random() < 0.8:
                 # the checkout was refused / failed: it must not have recorded the user's edited workspace as its own link
                 res.count("cleanups_after_checkout")
                 mid = walk_files(ws)
